@@ -1472,6 +1472,7 @@ class WireWorld:
         import dawgie.pl.message as M
 
         self.listen()
+        sweep_stale_gpg_homes()
         d = f'/dev/shm/verif-wire-{os.getpid():07d}'
         shutil.rmtree(d, ignore_errors=True)
         self.dir = d
@@ -1629,6 +1630,31 @@ class WireWorld:
         return dict(violations=self.violations, probes=dict(self.probes), faults=faults, steps=self.acc_steps + sim.steps + self.feeds,
                     vtime=round(self.acc_vtime + sim.now, 3), digest=sim.digest(), nontrivial=bool(self.nontrivial), kinds=dict(kinds),
                     feeds=self.feeds, sample=self.ops[:60], ops=self.ops)
+
+
+def sweep_stale_gpg_homes():
+    """a child killed by the run server's watchdog cannot clean up: the next calibration run does it"""
+    try:
+        names = sorted(n for n in os.listdir('/dev/shm') if n.startswith('verif-wire-') and n[11:].isdigit())
+    except OSError:
+        return
+    for n in names:
+        pid = int(n[11:])
+        try:
+            os.kill(pid, 0)
+            continue  # its owner is alive
+        except ProcessLookupError:
+            pass
+        except OSError:
+            continue
+        root = os.path.join('/dev/shm', n)
+        for h in ('trusted', 'stranger', 'foreign'):
+            if os.path.isdir(os.path.join(root, h)):
+                try:
+                    subprocess.run(['gpgconf', '--homedir', os.path.join(root, h), '--kill', 'gpg-agent'], capture_output=True, timeout=20)
+                except Exception:  # noqa
+                    pass
+        shutil.rmtree(root, ignore_errors=True)
 
 
 def ref_parse_hs(stream):
